@@ -2,50 +2,152 @@
 C03W — hand-overs: `give`, `tryList`, `passHandler`, `bufferLoop`, `passPart`.
 -/
 import SimProc.Proofs.C03WFloor
+import SimProc.Proofs.C03XCons
+import SimProc.Proofs.C03XSwv
 import SimProc.Props.C05
 namespace SimProc
 namespace C03W
 open World FloorCoreL C03
 
-theorem wouldAcceptN_core {w w' : World} (hc : w'.core = w.core) (f : Nat) (N : List Nat) (y p : Nat) :
-    wouldAcceptN f w' N y p = wouldAcceptN f w N y p := by
-  apply wouldAcceptN_congr
-  · intro z
-    exact ⟨core_eq_dev_kind hc z, core_eq_dev_pred hc z, core_eq_dev_down hc z⟩
-  · intro pr; unfold gatePred partValue; simp only [core_eq_part hc]
-  · intro z; exact core_eq_canAcceptBasic hc z p
+/-! ### what a hand-over of `p` needs: nobody else offers `p` or a batch under construction -/
 
-theorem G.tryList {E N : List Nat} {p : Nat} (g : World → Nat → Nat → World × Bool)
-    (hg : ∀ w y, G E N w → p < w.parts.length → G E N (g w y p).1)
-    (hr : ∀ w y w', g w y p = (w', false) → w'.parts = w.parts) :
-    ∀ (l : List Nat) (w : World), G E N w → p < w.parts.length → G E N (World.tryList g w l p).1 := by
+/-- the conservation invariant of C02, required only if batchers or batches exist -/
+def InvB (w : World) : Prop := ¬ NoBatch w → C02V.InvW w
+
+/-- no holder outside `E` offers `p` or the batch under construction of any batcher (required only
+if batchers or batches exist) -/
+def PFree (E : List Nat) (w : World) (p : Nat) : Prop :=
+  ¬ NoBatch w → ∀ d q, d ∉ E → holdsD (w.dev d) = some q → q ≠ p ∧ ∀ y, (w.dev y).inprog ≠ some q
+
+theorem holdsD_noWR (d : Dev) : holdsD d.noWR = holdsD d := rfl
+
+theorem noBatch_of_devs {w w' : World} (hl : w'.devs.length = w.devs.length)
+    (hd : ∀ y, (w'.dev y).kind = (w.dev y).kind ∧ (w'.dev y).genBatch = (w.dev y).genBatch) :
+    NoBatch w' ↔ NoBatch w := by
+  have key : ∀ v : World, NoBatch v ↔ ∀ y, (v.dev y).kind ≠ .batcher ∧ (v.dev y).genBatch = 0 ∧
+      (v.dev y).kind ≠ .gpath ∧ (v.dev y).kind ≠ .ginput ∧ (v.dev y).kind ≠ .goutput := by
+    intro v
+    constructor
+    · intro h y
+      rcases dev_mem_or_default v y with hm | hdf
+      · exact h _ hm
+      · rw [hdf]; exact ⟨by decide, rfl, by decide, by decide, by decide⟩
+    · intro h d hdm
+      obtain ⟨i, hi, rfl⟩ := List.getElem_of_mem hdm
+      rw [← dev_getElem hi]; exact h i
+  rw [key, key]
+  constructor
+  · intro h y; rw [← (hd y).1, ← (hd y).2]; exact h y
+  · intro h y; rw [(hd y).1, (hd y).2]; exact h y
+
+theorem noBatch_of_ref {w w' : World} (r : Ref w w') : NoBatch w' ↔ NoBatch w :=
+  noBatch_of_devs (C08L.refFrame_devs_length r.ref.2) (fun y =>
+    ⟨noWR_field Dev.kind (fun _ => rfl) (refused_dev r.ref y),
+     noWR_field Dev.genBatch (fun _ => rfl) (refused_dev r.ref y)⟩)
+
+theorem PFree.of_ref {E : List Nat} {w w' : World} {p : Nat} (h : PFree E w p) (r : Ref w w') :
+    PFree E w' p := by
+  intro hnb d q hd hq
+  have e1 : holdsD (w'.dev d) = holdsD (w.dev d) := by
+    rw [← holdsD_noWR, refused_dev r.ref d, holdsD_noWR]
+  rw [e1] at hq
+  obtain ⟨h1, h2⟩ := h (fun hn => hnb ((noBatch_of_ref r).mpr hn)) d q hd hq
+  refine ⟨h1, fun y => ?_⟩
+  rw [noWR_field Dev.inprog (fun _ => rfl) (refused_dev r.ref y)]
+  exact h2 y
+
+theorem PFree.of_devs {E : List Nat} {w w' : World} {p : Nat} (h : PFree E w p)
+    (hd : w'.devs = w.devs) : PFree E w' p := by
+  have hdv : ∀ y, w'.dev y = w.dev y := fun y => dev_congr hd y
+  intro hnb d q hdE hq
+  rw [hdv] at hq
+  have hnb0 : ¬ NoBatch w := fun hn => hnb (by unfold NoBatch; rw [hd]; exact hn)
+  obtain ⟨h1, h2⟩ := h hnb0 d q hdE hq
+  exact ⟨h1, fun y => by rw [hdv]; exact h2 y⟩
+
+/-- from the conservation invariant: when `x` is about to hand `p` over, nobody else offers it -/
+theorem pfree_of_inv {E : List Nat} {w : World} {x p : Nat} (hI : InvB w)
+    (hp : p ∈ heldL (w.dev x)) : PFree (x :: E) w p := by
+  intro hnb d q hd hq
+  have hdx : d ≠ x := fun hc => hd (hc ▸ List.mem_cons_self ..)
+  exact ⟨inv_holds_ne (hI hnb) hdx hq hp, fun y => (inv_free (hI hnb) hq y).1⟩
+
+theorem G.tryList {E N A : List Nat} {p : Nat} (g : World → Nat → Nat → World × Bool)
+    (hg : ∀ w y, G E N A w → p < w.parts.length → PFree E w p → G E N A (g w y p).1)
+    (hr : ∀ w y w', g w y p = (w', false) → Ref w w') :
+    ∀ (l : List Nat) (w : World), G E N A w → p < w.parts.length → PFree E w p →
+      G E N A (World.tryList g w l p).1 := by
   intro l
   induction l with
-  | nil => intro w h _; exact h
+  | nil => intro w h _ _; exact h
   | cons y ys ih =>
-    intro w h hp
+    intro w h hp hF
     rw [World.tryList]
-    have h1 := hg w y h hp
+    have h1 := hg w y h hp hF
     rcases hgy : g w y p with ⟨w1, b⟩
     rw [hgy] at h1
     cases b
-    · exact ih w1 h1 (by rw [hr w y w1 hgy]; exact hp)
+    · have r := hr w y w1 hgy
+      exact ih w1 h1 (by rw [r.ref.1]; exact hp) (hF.of_ref r)
     · exact h1
 
 theorem give_plain (f : Nat) (w : World) (x p : Nat)
     (hk : (w.dev x).kind = .source ∨ (w.dev x).kind = .handler ∨ (w.dev x).kind = .buffer ∨
-      (w.dev x).kind = .sink) :
+      (w.dev x).kind = .sink ∨ (w.dev x).kind = .batcher) :
     World.give (f + 1) w x p =
       if w.canAcceptBasic x p then (w.acceptPart x p, true) else (w, false) := by
   rw [World.give]
-  rcases hk with hk | hk | hk | hk <;> simp only [hk]
+  rcases hk with hk | hk | hk | hk | hk <;> simp only [hk]
 
-theorem give_proc (f : Nat) (w : World) (x p : Nat) (hk : (w.dev x).kind = .processor)
-    (hr : (w.dev x).resReq = none) :
-    World.give (f + 1) w x p =
-      if w.canAcceptBasic x p then (w.acceptPart x p, true) else (w, false) := by
-  rw [World.give]
-  simp only [hk, procAcquire_none w x hr]
+/-- **Acquiring resources.**  A refusal (registration with the manager) keeps the invariant; after
+a success the processor may be more willing than before (it holds a reservation now), so its
+notification is pending until it has taken the part. -/
+theorem G.procAcquire {E N A : List Nat} {w : World} (h : G E N A w) (x : Nat) :
+    ((w.procAcquire x).2 = false → G E N A (w.procAcquire x).1) ∧
+    ((w.procAcquire x).2 = true → G E (x :: N) A (w.procAcquire x).1) := by
+  have hmono : G E (x :: N) A w :=
+    h.mono (fun _ h => h) (fun y hy => List.mem_cons_of_mem _ hy) (fun _ h => h)
+  cases hq : (w.dev x).resReq with
+  | none =>
+    rw [procAcquire_noop w x (Or.inl hq)]
+    exact ⟨(fun hh => nomatch hh), fun _ => hmono⟩
+  | some req =>
+    cases hres : (w.dev x).reserved with
+    | some id =>
+      rw [procAcquire_noop w x (Or.inr (by rw [hres]; rfl))]
+      exact ⟨(fun hh => nomatch hh), fun _ => hmono⟩
+    | none =>
+      have hnn : ∀ e ∈ req, 0 ≤ e.2 := h.sc.reqNN x hq
+      have hx := valid_of_resReq hq
+      by_cases hf : C09.fits w.rm req
+      · rw [procAcquire_fits w x req hq hres hnn hf]
+        refine ⟨(fun hh => nomatch hh), fun _ => ?_⟩
+        have h1 := ((h.withRm (w.rm.reserve req).1 (C10.reserve_spec w.rm req).1).rmEffects
+          (w.rm.reserve req).2.2.2 false)
+        exact h1.modDev x (fun d => { d with reserved := some w.rm.resv.length }) rfl
+          (fun q hq => h1.valid.dev x q hq) (fun _ hy => hy)
+          (fun y hy => List.mem_cons_of_mem _ hy) (Or.inl (List.mem_cons_self ..))
+          (Or.inr (fun q hq => ⟨hq, Int.le_refl _, id⟩))
+      · rw [procAcquire_not_fits w x req hq hres hnn hf]
+        split
+        · exact ⟨fun _ => h, fun hh => nomatch hh⟩
+        · next hfl =>
+          refine ⟨fun _ => ?_, fun hh => nomatch hh⟩
+          have h1 := ((h.withRmReg (w.rm.register req (.proc x)).1 req x rfl).rmEffects [] w.rm.inited)
+          have hd1 : (({ w with rm := (w.rm.register req (.proc x)).1 } : World).rmEffects []
+              w.rm.inited).dev x = w.dev x := by rw [dev_rmEffects]; rfl
+          refine h1.modDev x (fun d => { d with waitingRes := true }) rfl
+            (fun q hq => h1.valid.dev x q hq) (fun _ h => h) (fun _ h => h)
+            (Or.inr (Or.inr (fun n => ?_))) (Or.inr (fun q hq => ⟨hq, Int.le_refl _, id⟩)) ?_
+          · -- registering never makes the processor more willing
+            rw [hd1]; exact accB_register n _
+          · intro _
+            right
+            refine ⟨req, ?_, ?_⟩
+            · rw [hd1]; exact hq
+            · rw [rmEffects_rm]
+              show (req, Cb.proc x) ∈ w.rm.waiting ++ [(req, Cb.proc x)]
+              simp
 
 theorem give_gate (f : Nat) (w : World) (x p : Nat) (hk : (w.dev x).kind = .gate) :
     World.give (f + 1) w x p =
@@ -59,24 +161,65 @@ theorem give_gate (f : Nat) (w : World) (x p : Nat) (hk : (w.dev x).kind = .gate
   simp only [hk]
   rfl
 
-theorem kindOK_cases {k : Kind} (h : kindOK k = true) :
-    (k = .source ∨ k = .handler ∨ k = .buffer ∨ k = .sink) ∨ k = .processor ∨ k = .gate := by
-  cases k <;> simp_all [kindOK]
+theorem kind_cases6 (k : Kind) :
+    (k = .source ∨ k = .handler ∨ k = .buffer ∨ k = .sink ∨ k = .batcher) ∨ k = .processor ∨
+      k = .gate ∨ k = .ginput ∨ k = .gpath ∨ k = .goutput := by
+  cases k <;> simp
 
-theorem G.give {E N : List Nat} (f : Nat) : ∀ (w : World) (y p : Nat), G E N w →
-    p < w.parts.length → G E N (World.give f w y p).1 := by
+/-- the group-path stack of a part that nobody (outside `E`) offers may change -/
+theorem G.modStack {E N A : List Nat} {w : World} (h : G E N A w) (p : Nat)
+    (g : List Nat → List Nat) (hnb : ¬ NoBatch w) (hF : PFree E w p)
+    (hs : (∀ z ∈ (w.part p).stack, (w.dev z).kind = .gpath) →
+      ∀ z ∈ g (w.part p).stack, (w.dev z).kind = .gpath) :
+    G E N A (w.modPart p (fun r => { r with stack := g r.stack })) :=
+  h.modPartKids p _ (fun _ => rfl) (fun d hd hc => (hF hnb d p hd hc).1 rfl) hnb
+    (fun l hl => h.kv.part p hl) hs
+
+theorem G.give {E N A : List Nat} (f : Nat) : ∀ (w : World) (y p : Nat), G E N A w →
+    p < w.parts.length → PFree E w p → G E N A (World.give f w y p).1 := by
   induction f with
-  | zero => intro w y p h _; rw [World.give]; exact h.setErr _
+  | zero => intro w y p h _ _; rw [World.give]; exact h.setErr _
   | succ f ih =>
-    intro w y p h hp
-    rcases kindOK_cases (h.s1.kindOK y) with hk | hk | hk
+    intro w y p h hp hF
+    rcases kind_cases6 (w.dev y).kind with hk | hk | hk | hk | hk | hk
     · rw [give_plain f w y p hk]
       split
-      · exact h.acceptPart y p hp
+      · next hc =>
+        by_cases hkb : (w.dev y).kind = .batcher
+        · -- a batcher that accepts is counted as willing while it takes the part
+          have hacc : ∀ n, accB n (w.dev y) = true := by
+            intro n
+            have h1 : accM w y p = true := by
+              unfold accM procM; rw [hc, hkb]; rfl
+            rw [accM_eq] at h1
+            unfold accB accB0 at h1 ⊢
+            simp only [hkb] at h1 ⊢
+            exact h1
+          have h1 := h.introA y hkb hacc
+          refine (h1.acceptPart y p hp (fun _ => ⟨List.mem_cons_self .., fun d q hd hq => ?_⟩)).dropA
+            (fun z hz => List.mem_cons_of_mem _ hz)
+          have hnb : ¬ NoBatch w := fun hn => (noBatch_dev hn y).1 hkb
+          obtain ⟨h2, h3⟩ := hF hnb d q (fun hc' => hd (List.mem_cons_of_mem _ hc')) hq
+          exact ⟨h2, h3 y⟩
+        · exact h.acceptPart y p hp (fun hb => absurd hb hkb)
       · exact h
-    · rw [give_proc f w y p hk (h.s1.resReq y)]
+    · rw [give_processor f w y p hk]
       split
-      · exact h.acceptPart y p hp
+      · have hpa := h.procAcquire y
+        have hpp : (w.procAcquire y).1.parts.length = w.parts.length := by
+          rw [procAcquire_fst_parts]
+        have hkk : ((w.procAcquire y).1.dev y).kind = .processor := by
+          rw [procAcquire_dev_field Dev.kind (fun _ _ _ => rfl) w y y]; exact hk
+        rcases hacq : w.procAcquire y with ⟨w1, b⟩
+        rw [hacq] at hpa hpp hkk
+        cases b
+        · exact hpa.1 rfl
+        · dsimp only at hpp hkk ⊢
+          exact (hpa.2 rfl).acceptPartD p (by rw [hpp]; exact hp) (by rw [hkk]; rfl)
+            (kind_lt (by rw [hkk]; decide)) (by rw [hkk]; decide)
+            (fun hyA => by
+              have := h.aok y hyA
+              rw [hk] at this; cases this)
       · exact h
     · rw [give_gate f w y p hk]
       split
@@ -85,18 +228,97 @@ theorem G.give {E N : List Nat} (f : Nat) : ∀ (w : World) (y p : Nat), G E N w
         · exact h
         · have h1 := h.addHist p y
           have hp1 : p < (w.addHist p y).parts.length := by rw [addHist_parts_length]; exact hp
-          have hT := G.tryList (World.give f) (fun w y hw hpw => ih w y p hw hpw)
-            (fun w y w' hh => C08.no_leftovers f w y p w' hh) ((w.addHist p y).sortedDown y) _ h1 hp1
+          have hF1 : PFree E (w.addHist p y) p := hF.of_devs (addHist_devs w p y)
+          have hT := G.tryList (World.give f) (fun w y hw hpw hfw => ih w y p hw hpw hfw)
+            (fun w y w' hh => give_ref f w y p w' hh) ((w.addHist p y).sortedDown y) _ h1 hp1 hF1
           generalize World.tryList (World.give f) (w.addHist p y) ((w.addHist p y).sortedDown y) p = r at hT
           obtain ⟨w1, b⟩ := r
           cases b
           · exact hT.dropHist p
           · exact hT
+    · -- group input
+      rw [World.give]
+      simp only [hk]
+      split
+      · exact h
+      · exact G.tryList (World.give f) (fun w y hw hpw hfw => ih w y p hw hpw hfw)
+          (fun w y w' hh => give_ref f w y p w' hh) _ _ h hp hF
+    · -- group path: the part enters the group
+      have hnb : ¬ NoBatch w := fun hn => (noBatch_grp hn y).1 hk
+      rw [World.give]
+      simp only [hk]
+      split
+      · exact h
+      · have h1 : G E N A (w.modPart p (fun r => { r with stack := r.stack ++ [y] })) :=
+          h.modStack p (fun s => s ++ [y]) hnb hF (fun h0 z hz => by
+            rcases List.mem_append.mp hz with hz | hz
+            · exact h0 z hz
+            · rw [List.mem_singleton] at hz; rw [hz]; exact hk)
+        have h2 := h1.addHist p y
+        have hp2 : p < ((w.modPart p (fun r => { r with stack := r.stack ++ [y] })).addHist p y).parts.length := by
+          rw [addHist_parts_length]; simpa using hp
+        have hF2 : PFree E ((w.modPart p (fun r => { r with stack := r.stack ++ [y] })).addHist p y) p :=
+          hF.of_devs (by rw [addHist_devs]; rfl)
+        have h3 := ih _ ((((w.modPart p (fun r => { r with stack := r.stack ++ [y] })).addHist p y).groups.getD
+          (w.dev y).group default).input) p h2 hp2 hF2
+        have hr3 := fun w' => give_ref f ((w.modPart p (fun r => { r with stack := r.stack ++ [y] })).addHist p y)
+          ((((w.modPart p (fun r => { r with stack := r.stack ++ [y] })).addHist p y).groups.getD
+          (w.dev y).group default).input) p w'
+        generalize World.give f ((w.modPart p (fun r => { r with stack := r.stack ++ [y] })).addHist p y)
+          ((((w.modPart p (fun r => { r with stack := r.stack ++ [y] })).addHist p y).groups.getD
+          (w.dev y).group default).input) p = r at h3 hr3
+        obtain ⟨w1, b⟩ := r
+        cases b
+        · have r := hr3 w1 rfl
+          have hnb1 : ¬ NoBatch w1 := fun hn => hnb
+            ((noBatch_of_devs (by rw [addHist_devs]; rfl) (fun z => by rw [dev_addHist]; exact ⟨rfl, rfl⟩)).mp
+              ((noBatch_of_ref r).mp hn))
+          dsimp only
+          refine (h3.modStack p (fun s => s.dropLast) hnb1 (hF2.of_ref r) (fun h0 z hz => ?_)).dropHist p
+          exact h0 z (List.dropLast_subset _ hz)
+        · exact h3
+    · -- group output: the part leaves the group
+      have hnb : ¬ NoBatch w := fun hn => (noBatch_grp hn y).2.2 hk
+      rw [World.give]
+      simp only [hk]
+      cases hl : (w.part p).stack.getLast? with
+      | none => exact h.setErr _
+      | some g =>
+        simp only []
+        have h1 : G E N A (w.modPart p (fun r => { r with stack := r.stack.dropLast })) :=
+          h.modStack p (fun s => s.dropLast) hnb hF (fun h0 z hz =>
+            h0 z (List.dropLast_subset _ hz))
+        have hg : (w.dev g).kind = .gpath := h.stk.top hk p g (List.mem_of_getLast? hl)
+        have hF1 : PFree E (w.modPart p (fun r => { r with stack := r.stack.dropLast })) p :=
+          hF.of_devs rfl
+        have hT := G.tryList (World.give f) (fun w y hw hpw hfw => ih w y p hw hpw hfw)
+          (fun w y w' hh => give_ref f w y p w' hh)
+          ((w.modPart p (fun r => { r with stack := r.stack.dropLast })).sortedDown g) _ h1
+          (by simpa using hp) hF1
+        have hR := fun w' => tryList_ref (g := World.give f) (p := p)
+          (fun w y w' hh => give_ref f w y p w' hh)
+          (w := w.modPart p (fun r => { r with stack := r.stack.dropLast })) (w' := w')
+          (l := (w.modPart p (fun r => { r with stack := r.stack.dropLast })).sortedDown g)
+        generalize World.tryList (World.give f) (w.modPart p (fun r => { r with stack := r.stack.dropLast }))
+          ((w.modPart p (fun r => { r with stack := r.stack.dropLast })).sortedDown g) p = r at hT hR
+        obtain ⟨w1, b⟩ := r
+        cases b
+        · have r := hR w1 rfl
+          have hnb1 : ¬ NoBatch w1 := fun hn => hnb
+            ((noBatch_of_devs (w := w) (w' := w.modPart p (fun r => { r with stack := r.stack.dropLast }))
+              rfl (fun z => ⟨rfl, rfl⟩)).mp ((noBatch_of_ref r).mp hn))
+          have hg1 : (w1.dev g).kind = .gpath := by
+            rw [(topoEq_refused r.ref).kind]; exact hg
+          refine hT.modStack p (fun s => s ++ [g]) hnb1 (hF1.of_ref r) (fun h0 z hz => ?_)
+          rcases List.mem_append.mp hz with hz | hz
+          · exact h0 z hz
+          · rw [List.mem_singleton] at hz; rw [hz]; exact hg1
+        · exact hT
 
-theorem G.tryGive {E N : List Nat} {w : World} (h : G E N w) (l : List Nat) (p : Nat)
-    (hp : p < w.parts.length) : G E N (World.tryList givePart w l p).1 :=
-  G.tryList givePart (fun w y hw hpw => G.give _ w y p hw hpw)
-    (fun w y w' hh => C08.no_leftovers_givePart w y p w' hh) l w h hp
+theorem G.tryGive {E N A : List Nat} {w : World} (h : G E N A w) (l : List Nat) (p : Nat)
+    (hp : p < w.parts.length) (hF : PFree E w p) : G E N A (World.tryList givePart w l p).1 :=
+  G.tryList givePart (fun w y hw hpw hfw => G.give _ w y p hw hpw hfw)
+    (fun w y w' hh => give_ref _ w y p w' hh) l w h hp hF
 
 theorem holdsD_output_none (d : Dev) (hk : d.kind ≠ .buffer) :
     holdsD { d with output := none } = none := by
@@ -105,50 +327,112 @@ theorem holdsD_output_none (d : Dev) (hk : d.kind ≠ .buffer) :
 
 theorem holdsD_output {d : Dev} {q : Nat} (hk : d.kind ≠ .buffer) (h : holdsD d = some q) :
     d.output = some q := by
-  rcases holdsD_cases h with h | h | h | h
+  rcases holdsD_cases h with h | h | h | h | h
   · exact h.2.2
   · exact h.2
   · exact h.2.2
   · exact absurd h.1 hk
+  · exact h.2
 
-/-- what a refusing offer round tells: nobody downstream would accept -/
-theorem tryGive_refused {w w1 : World} (hs : S1 w) {x p : Nat}
+/-- what a refusing offer round tells: afterwards nobody downstream would accept (in the
+invariant's sense) -/
+theorem tryGive_refused {w w1 : World} (hs : SC w) {x p : Nat} (hp : PV w p)
     (ht : World.tryList givePart w (w.sortedDown x) p = (w1, false)) :
-    C08L.Refused w w1 ∧ ∀ y ∈ (w.dev x).down, wouldAccept w.fuel w y p = false := by
-  refine ⟨C08L.tryList_refused (fun w y w' h => C08L.give_refused _ w y p w' h) ht, ?_⟩
-  have := tryList_givePart_answer w (w.sortedDown x) p hs.kok
-  rw [ht] at this
+    Ref w w1 ∧ ∀ y ∈ (w.dev x).down, wouldAcceptN w.fuel w1 [] [] y p = false := by
+  have hr : Ref w w1 := tryList_ref (fun w y w' h => give_ref _ w y p w' h) ht
+  refine ⟨hr, ?_⟩
+  -- `givePart` uses the fuel of the world it is called in; the number of devices never changes
+  have key : ∀ (l : List Nat) (w0 w' : World), w0.devs.length = w.devs.length → KOK w0 → PV w0 p →
+      (w0.part p).stack = (w.part p).stack →
+      World.tryList givePart w0 l p = (w', false) →
+      ∀ y ∈ l, wouldAcceptS w.fuel w' [] [] y p (w.part p).stack = false := by
+    intro l
+    induction l with
+    | nil => intro w0 w' _ _ _ _ _ y hy; cases hy
+    | cons z zs ih =>
+      intro w0 w' hl hk hv hst h y hy
+      rcases hgz : givePart w0 z p with ⟨w2, b⟩
+      cases b
+      · rw [C08L.tryList_cons_false _ hgz] at h
+        have r1 : Ref w0 w2 := give_ref _ w0 z p w2 hgz
+        have hl2 : w2.devs.length = w.devs.length :=
+          (C08L.refFrame_devs_length r1.ref.2).trans hl
+        rcases List.mem_cons.mp hy with rfl | hy
+        · have h1 := give_refusedR _ w0 y p w2 hk hv hgz
+          rw [fuel_of_len hl, hst] at h1
+          have r2 : Ref w2 w' := tryList_ref (fun w y w' h => give_ref _ w y p w' h) h
+          cases hh : wouldAcceptS w.fuel w' [] [] y p (w.part p).stack with
+          | false => rfl
+          | true => rw [wouldAcceptS_ref r2 [] _ y p _ hh] at h1; cases h1
+        · exact ih w2 w' hl2 (hk.of_refused r1.ref) (hv.of_refused r1.ref)
+            (by rw [part_congr r1.ref.1]; exact hst) h y hy
+      · rw [C08L.tryList_cons_true _ hgz] at h
+        simp at h
   intro y hy
-  have hy' := (C08.sortedDown_mem w x y).mpr hy
-  cases hh : wouldAccept w.fuel w y p with
-  | false => rfl
-  | true =>
-    have : (w.sortedDown x).any (fun y => wouldAccept w.fuel w y p) = true :=
-      List.any_eq_true.mpr ⟨y, hy', hh⟩
-    simp_all
+  unfold wouldAcceptN
+  rw [part_congr hr.ref.1]
+  exact key _ w w1 rfl hs.kok hp rfl ht y ((C08.sortedDown_mem w x y).mpr hy)
 
-theorem G.passHandler {E N : List Nat} {w : World} {x : Nat} (h : G (x :: E) N w)
-    (hk : (w.dev x).kind ≠ .buffer) : G E N (w.passHandler x) := by
-  have hun : ∀ {N' : List Nat} {w' : World}, G (x :: E) N' w' → (∀ q, holdsD (w'.dev x) ≠ some q) →
-      G E N' w' :=
+/-- every device a hand-over can reach exists -/
+theorem SC.giveOK {w : World} (hs : SC w) (x : Nat) : C02V.GiveOK w x := by
+  have key : ∀ y z, C02V.Reach (C02V.st w) y z → y < w.devs.length → z < w.devs.length := by
+    intro y z hr
+    induction hr with
+    | self y _ => exact id
+    | gate y z u hk hz _ ih =>
+      intro hy
+      rw [C02V.st_down] at hz
+      exact ih (hs.down_sym hy hz).1
+    | gpath y u hk _ ih =>
+      intro hy
+      rw [C02V.st_kind] at hk
+      refine ih ?_
+      rw [C02V.st_group, C02V.st_gin]
+      exact ((hs.groupOK hy).2.1 hk).1
+    | goutput y g z u hk hz _ ih =>
+      intro _
+      rw [C02V.st_down] at hz
+      by_cases hg : g < w.devs.length
+      · exact ih (hs.down_sym hg hz).1
+      · rw [dev_of_length_le (Nat.le_of_not_lt hg)] at hz; cases hz
+  intro y hy z hr
+  by_cases hx : x < w.devs.length
+  · exact key y z hr (hs.down_sym hx hy).1
+  · rw [dev_of_length_le (Nat.le_of_not_lt hx)] at hy; cases hy
+
+/-- The hand-over attempt of a handler-like device `x` (not a buffer).  If `x` is a batcher whose
+output has been taken, it is counted as willing afterwards (it has just notified upstream): its
+loop may free its input slot without a further notification. -/
+theorem G.passHandler {E N : List Nat} {w : World} {x : Nat} (h : G (x :: E) N [] w)
+    (hk : (w.dev x).kind ≠ .buffer) (hI : InvB w) :
+    G E N [] (w.passHandler x) ∧
+      ((w.dev x).kind = .batcher → (w.dev x).output ≠ none →
+        ((w.passHandler x).dev x).output = none → G E N [x] (w.passHandler x)) := by
+  have hun : ∀ {N' : List Nat} {w' : World}, G (x :: E) N' [] w' → (∀ q, holdsD (w'.dev x) ≠ some q) →
+      G E N' [] w' :=
     fun hw hq => hw.unexempt x (fun y hy => (List.mem_cons.mp hy).imp id id)
       (fun q hh => absurd hh (hq q))
   unfold World.passHandler
   dsimp only
   split
   · next hop =>
-    refine hun h (fun q hq => ?_)
-    have := holdsD_opn hq
-    rw [operational_eq, this] at hop
-    simp at hop
+    refine ⟨hun h (fun q hq => ?_), fun hb _ _ => ?_⟩
+    · have := holdsD_opn hq
+      rw [operational_eq, this] at hop
+      simp at hop
+    · exfalso
+      rw [operational_eq] at hop
+      unfold opn at hop
+      rw [hb] at hop
+      simp at hop
   · split
     · next ho =>
-      refine hun h (fun q hq => ?_)
+      refine ⟨hun h (fun q hq => ?_), fun _ hne _ => absurd ho hne⟩
       rw [holdsD_output hk hq] at ho; cases ho
     · next p hout =>
-      have hp : p < w.parts.length :=
-        h.valid.dev x p ((heldL_mem _ _).mpr (Or.inr (Or.inl hout)))
-      have hT := h.tryGive (w.sortedDown x) p hp
+      have hpm : p ∈ heldL (w.dev x) := (heldL_mem _ _).mpr (Or.inr (Or.inl hout))
+      have hp : p < w.parts.length := h.valid.dev x p hpm
+      have hT := h.tryGive (w.sortedDown x) p hp (pfree_of_inv hI hpm)
       have hst := C02V.st_tryGive w (w.sortedDown x) p
       rcases ht : World.tryList givePart w (w.sortedDown x) p with ⟨w1, b⟩
       rw [ht] at hT hst
@@ -157,40 +441,46 @@ theorem G.passHandler {E N : List Nat} {w : World} {x : Nat} (h : G (x :: E) N w
       cases b
       · -- refused by all: flag
         dsimp only
-        obtain ⟨href, hno⟩ := tryGive_refused h.s1 ht
-        have h2 : G (x :: E) N (w1.modDev x (fun d => { d with waitingDS := true })) :=
-          hT.modDev x _ rfl (fun q hq => hT.valid.dev x q hq) (fun _ h => h) (fun _ h => h)
-            (Or.inr id) (Or.inl (List.mem_cons_self ..))
-        refine h2.unexempt x (fun y hy => (List.mem_cons.mp hy).imp id id) (fun q hq => Or.inr ?_)
-        have hx : x < w1.devs.length := by
-          have := holdsD_lt hq; simpa using this
-        have hc : (w1.modDev x (fun d => { d with waitingDS := true })).core = w1.core :=
-          modDev_core_of_core_eq rfl
-        have hd2 : (w1.modDev x (fun d => { d with waitingDS := true })).dev x =
-            { w1.dev x with waitingDS := true } := dev_modDev_same hx
-        have hnw : (w1.dev x).noWR = (w.dev x).noWR := refused_dev href x
+        obtain ⟨href, hno⟩ := tryGive_refused h.sc (Or.inl hp) ht
+        have hnw : (w1.dev x).noWR = (w.dev x).noWR := refused_dev href.ref x
         have hout1 : (w1.dev x).output = some p := by
           rw [noWR_field Dev.output (fun _ => rfl) hnw]; exact hout
-        have hqp : q = p := by
-          rw [hd2] at hq
-          have := holdsD_output (d := { w1.dev x with waitingDS := true }) hk1 hq
-          rw [show ({ w1.dev x with waitingDS := true } : Dev).output = (w1.dev x).output from rfl,
-            hout1] at this
-          cases this; rfl
-        subst hqp
-        refine ⟨by rw [hd2], fun y hy => ?_⟩
-        rw [hd2] at hy
-        have hy0 : y ∈ (w.dev x).down := by
-          rw [← noWR_field Dev.down (fun _ => rfl) hnw]; exact hy
-        apply wouldAcceptN_le_wouldAccept
-        have hlen : (w1.modDev x (fun d => { d with waitingDS := true })).devs.length = w.devs.length := by
-          rw [modDev_devs_length]; exact C08L.refFrame_devs_length href.2
-        rw [fuel_of_len hlen, ← wouldAcceptN_nil, wouldAcceptN_core hc, wouldAcceptN_nil,
-          wouldAccept_refused href]
-        exact hno y hy0
+        refine ⟨?_, fun _ _ hc => ?_⟩
+        · have h2 : G (x :: E) N [] (w1.modDev x (fun d => { d with waitingDS := true })) :=
+            hT.modDev x _ rfl (fun q hq => hT.valid.dev x q hq) (fun _ h => h) (fun _ h => h)
+              (Or.inr (Or.inr (fun _ => id))) (Or.inl (List.mem_cons_self ..))
+          refine h2.unexempt x (fun y hy => (List.mem_cons.mp hy).imp id id) (fun q hq => Or.inr ?_)
+          have hx : x < w1.devs.length := by
+            have := holdsD_lt hq; simpa using this
+          have hc : (w1.modDev x (fun d => { d with waitingDS := true })).core = w1.core :=
+            modDev_core_of_core_eq rfl
+          have hd2 : (w1.modDev x (fun d => { d with waitingDS := true })).dev x =
+              { w1.dev x with waitingDS := true } := dev_modDev_same hx
+          have hqp : q = p := by
+            rw [hd2] at hq
+            have := holdsD_output (d := { w1.dev x with waitingDS := true }) hk1 hq
+            rw [show ({ w1.dev x with waitingDS := true } : Dev).output = (w1.dev x).output from rfl,
+              hout1] at this
+            cases this; rfl
+          subst hqp
+          refine ⟨by rw [hd2], fun y hy => ?_⟩
+          rw [hd2] at hy
+          have hy0 : y ∈ (w.dev x).down := by
+            rw [← noWR_field Dev.down (fun _ => rfl) hnw]; exact hy
+          apply wouldAcceptN_of_nil
+          have hlen : (w1.modDev x (fun d => { d with waitingDS := true })).devs.length = w.devs.length := by
+            rw [modDev_devs_length]; exact C08L.refFrame_devs_length href.ref.2
+          rw [fuel_of_len hlen, wouldAcceptN_core hc]
+          exact hno y hy0
+        · exfalso
+          by_cases hx : x < w1.devs.length
+          · rw [dev_modDev_same hx] at hc
+            have : (w1.dev x).output = none := hc
+            rw [hout1] at this; cases this
+          · rw [dev_of_length_le (Nat.le_of_not_lt hx)] at hout1; cases hout1
       · -- handed over
         dsimp only
-        have h2 : G (x :: E) (x :: N) (w1.modDev x (fun d => { d with output := none })) := by
+        have h2 : G (x :: E) (x :: N) [] (w1.modDev x (fun d => { d with output := none })) := by
           refine hT.modDev x _ rfl ?_ (fun _ h => h) (fun y hy => List.mem_cons_of_mem _ hy)
             (Or.inl (List.mem_cons_self ..)) (Or.inl (List.mem_cons_self ..))
           intro q hq
@@ -200,77 +490,83 @@ theorem G.passHandler {E N : List Nat} {w : World} {x : Nat} (h : G (x :: E) N w
           · exact Or.inl hq
           · cases hq
           · exact Or.inr (Or.inr hq)
-        have h3 : G E (x :: N) (w1.modDev x (fun d => { d with output := none })) := by
+        have h3 : G E (x :: N) [] (w1.modDev x (fun d => { d with output := none })) := by
           refine hun h2 (fun q hq => ?_)
           by_cases hx : x < w1.devs.length
           · rw [dev_modDev_same hx, holdsD_output_none _ hk1] at hq; cases hq
           · rw [modDev_out_of_range (Nat.le_of_not_lt hx), dev_of_length_le (Nat.le_of_not_lt hx)] at hq
             cases hq
-        exact h3.notify x (fun y hy => (List.mem_cons.mp hy).imp id id)
+        refine ⟨h3.notify x (fun y hy => (List.mem_cons.mp hy).imp id id), fun hb _ _ => ?_⟩
+        refine h3.notifyG x (fun y hy => (List.mem_cons.mp hy).imp id id) (fun y hy => ?_)
+        rw [List.mem_singleton] at hy
+        subst hy
+        right
+        refine ⟨rfl, ?_⟩
+        rw [modDev_dev_field Dev.kind w1 y _ rfl y, kind_of_st hst]
+        exact hb
+
 /-! ### a hand-over from `x` does not come back to `x` -/
 
-theorem gReach_chain {w : World} {x : Nat} : ∀ f y, gReach f w y x = true → ∃ k, GChain w k y x ∧ k ≤ f := by
-  intro f
-  induction f with
+/-- fuel beyond the static bound on controller chains reaches nothing new -/
+theorem cReach_fuel {w : World} {x : Nat} : ∀ (F n b y : Nat), costLe n w b y = true →
+    cReach F w y x = true → cReach n w y x = true := by
+  intro F
+  induction F with
   | zero =>
-    intro y h
-    simp only [gReach, beq_iff_eq] at h
-    subst h; exact ⟨0, .here _, Nat.le_refl _⟩
-  | succ f ih =>
-    intro y h
-    simp only [gReach, Bool.or_eq_true, beq_iff_eq, Bool.and_eq_true, List.any_eq_true] at h
+    intro n b y _ h
+    simp only [cReach, beq_iff_eq] at h
+    subst h; exact cReach_self _ _ _
+  | succ F ih =>
+    intro n b y hc h
+    simp only [cReach, Bool.or_eq_true, beq_iff_eq, Bool.and_eq_true, List.any_eq_true] at h
     rcases h with h | ⟨hk, z, hz, hr⟩
-    · subst h; exact ⟨0, .here _, Nat.zero_le _⟩
-    · obtain ⟨k, hc, hkf⟩ := ih z hr
-      exact ⟨k + 1, .step hk hz hc, Nat.succ_le_succ hkf⟩
+    · subst h; exact cReach_self _ _ _
+    · cases n with
+      | zero => simp [costLe, hk] at hc
+      | succ n =>
+        simp only [costLe, hk, Bool.not_true, Bool.false_or, Bool.and_eq_true, decide_eq_true_eq,
+          List.all_eq_true] at hc
+        have := ih n _ z (hc.2 z hz) hr
+        simp only [cReach, hk, Bool.true_and, Bool.or_eq_true, List.any_eq_true]
+        exact Or.inr ⟨z, hz, this⟩
 
-theorem gReach_fuel {w : World} {x y : Nat} {n : Nat} (hd : gateDepthLe n w y = true)
-    (h : gReach n w y x = false) (F : Nat) : gReach F w y x = false := by
-  cases hh : gReach F w y x with
+theorem same_tryGive {w : World} (hs : SC w) (hst : StkOK w) {x : Nat} (hx : x < w.devs.length)
+    (p : Nat) : SameD x w (World.tryList givePart w (w.sortedDown x) p).1 := by
+  -- `givePart` uses the fuel of the world it is called in; the number of devices never changes
+  have key : ∀ (l : List Nat) (w0 : World), HK w0 → StkOK w0 → w0.devs.length = w.devs.length →
+      (∀ y ∈ l, (w0.dev y).kind ≠ .source ∧ cReach w.fuel w0 y x = false) →
+      SameD x w0 (World.tryList givePart w0 l p).1 := by
+    intro l
+    induction l with
+    | nil => intro w0 _ _ _ _; exact .refl x w0
+    | cons y ys ihl =>
+      intro w0 hw hs0 hn hl
+      rw [World.tryList]
+      have h1 : SameD x w0 (givePart w0 y p).1 := by
+        unfold World.givePart
+        rw [fuel_of_len hn]
+        exact same_give_ctrl x w.fuel w0 y p hw hs0 (hl y (List.mem_cons_self ..)).1
+          (hl y (List.mem_cons_self ..)).2
+      rcases hgy : givePart w0 y p with ⟨w1, b⟩
+      rw [hgy] at h1
+      cases b
+      · dsimp only
+        have r := C08L.give_refused _ w0 y p w1 hgy
+        refine h1.trans (ihl w1 (hw.of_refused r) (stkOK_refused hs0 r) (h1.len.trans hn) (fun z hz => ?_))
+        have := hl z (List.mem_cons_of_mem _ hz)
+        rw [cReach_refused r, h1.kind z]
+        exact this
+      · exact h1
+  refine key _ w hs.hk hst rfl ?_
+  intro y hy
+  have hy' := (C08.sortedDown_mem w x y).mp hy
+  obtain ⟨hylt, _⟩ := hs.down_sym hx hy'
+  refine ⟨hs.hk.src' x y hy', ?_⟩
+  cases hh : cReach w.fuel w y x with
   | false => rfl
   | true =>
-    obtain ⟨k, hc, _⟩ := gReach_chain F y hh
-    have := hc.toGReach n (hc.depth n hd)
-    rw [h] at this; cases this
-
-theorem same_tryList_g (x p n F : Nat) (g : World → Nat → Nat → World × Bool)
-    (hg : ∀ (w : World) (y : Nat), HK w → w.devs.length = n → (w.dev y).kind ≠ .source →
-      gReach F w y x = false → Same x w (g w y p).1)
-    (hr : ∀ w y w', g w y p = (w', false) → C08L.Refused w w') :
-    ∀ (l : List Nat) (w : World), HK w → w.devs.length = n →
-      (∀ y ∈ l, (w.dev y).kind ≠ .source ∧ gReach F w y x = false) →
-      Same x w (World.tryList g w l p).1 := by
-  intro l
-  induction l with
-  | nil => intro w _ _ _; exact .refl x w
-  | cons y ys ihl =>
-    intro w hw hn hl
-    rw [World.tryList]
-    have h1 := hg w y hw hn (hl y (List.mem_cons_self ..)).1 (hl y (List.mem_cons_self ..)).2
-    rcases hgy : g w y p with ⟨w1, b⟩
-    rw [hgy] at h1
-    cases b
-    · dsimp only
-      have r := hr w y w1 hgy
-      refine h1.trans (ihl w1 (hw.of_refused r) (h1.len.trans hn) (fun z hz => ?_))
-      have := hl z (List.mem_cons_of_mem _ hz)
-      rw [gReach_refused r, h1.kind z]
-      exact this
-    · exact h1
-
-theorem same_tryGive {w : World} (hs : S1 w) {x : Nat} (hx : x < w.devs.length) (p : Nat) :
-    Same x w (World.tryList givePart w (w.sortedDown x) p).1 := by
-  refine same_tryList_g x p w.devs.length w.fuel givePart ?_
-    (fun w y w' h => C08L.give_refused _ w y p w' h) _ w hs.hk rfl ?_
-  · intro w' y hw' hn hsrc hr
-    unfold World.givePart
-    have : w'.fuel = w.fuel := fuel_of_len hn
-    rw [this]
-    exact same_give_gates x w.fuel w' y p hw' hsrc hr
-  · intro y hy
-    have hy' := (C08.sortedDown_mem w x y).mp hy
-    obtain ⟨hylt, _⟩ := hs.down_sym hx hy'
-    exact ⟨(hs.hk x).2 y hy', gReach_fuel (hs.depth hylt) (hs.noSelf hx hy') _⟩
+    have := cReach_fuel _ _ _ _ (hs.cost hylt) hh
+    rw [hs.noSelf hx hy'] at this; cases this
 
 /-! ### the buffer loop -/
 
@@ -279,66 +575,77 @@ def LoopPost (w : World) (x : Nat) : Prop :=
   match (w.dev x).buf with
   | [] => True
   | (t, q) :: _ =>
-    (w.dev x).delay - (w.now - t) > 0 ∨ ∀ y ∈ (w.dev x).down, wouldAccept w.fuel w y q = false
+    (w.dev x).delay - (w.now - t) > 0 ∨ ∀ y ∈ (w.dev x).down, wouldAcceptN w.fuel w [] [] y q = false
 
 theorem G.bufferLoopG {E : List Nat} (x : Nat) (f : Nat) : ∀ (N : List Nat) (w : World),
-    G (x :: E) N w → (w.dev x).kind = .buffer → (w.dev x).buf.length < f →
-    G (x :: E) (x :: N) (World.bufferLoop f w x) ∧ LoopPost (World.bufferLoop f w x) x := by
+    G (x :: E) N [] w → (w.dev x).kind = .buffer → (w.dev x).buf.length < f → InvB w →
+    G (x :: E) (x :: N) [] (World.bufferLoop f w x) ∧ LoopPost (World.bufferLoop f w x) x := by
   induction f with
   | zero => intro N w _ _ hl; exact absurd hl (Nat.not_lt_zero _)
   | succ f ih =>
-    intro N w h hk hl
+    intro N w h hk hl hI
     have hx : x < w.devs.length := kind_lt (by rw [hk]; decide)
-    have hmono : ∀ {w' : World}, G (x :: E) N w' → G (x :: E) (x :: N) w' :=
-      fun hw => hw.mono (fun _ h => h) (fun y hy => List.mem_cons_of_mem _ hy)
-    rw [C05.bufferLoop_succ]
+    have hmono : ∀ {w' : World}, G (x :: E) N [] w' → G (x :: E) (x :: N) [] w' :=
+      fun hw => hw.mono (fun _ h => h) (fun y hy => List.mem_cons_of_mem _ hy) (fun _ h => h)
+    have hone : ¬ NoBatch w → C02V.InvW (World.bufferLoop 1 w x) :=
+      fun hnb => C02V.inv_bufferLoop 1 w x (hI hnb) hk (h.sc.giveOK x)
+    have hnbL : NoBatch (World.bufferLoop 1 w x) ↔ NoBatch w :=
+      noBatch_of_swv (C02V.swv_bufferLoop w 1 x)
+    rw [C05.bufferLoop_succ] at hone hnbL ⊢
     cases hb : (w.dev x).buf with
     | nil =>
       dsimp only
       exact ⟨hmono h, by unfold LoopPost; rw [hb]; trivial⟩
     | cons a rest =>
       obtain ⟨t, p⟩ := a
-      dsimp only
+      rw [hb] at hone hnbL
+      dsimp only at hone hnbL ⊢
       split
       · next hheld =>
         exact ⟨hmono h, by unfold LoopPost; rw [hb]; exact Or.inl hheld⟩
-      · have hp : p < w.parts.length :=
-          h.valid.dev x p ((heldL_mem _ _).mpr (Or.inr (Or.inr ⟨t, by rw [hb]; exact List.mem_cons_self ..⟩)))
-        have hT := h.tryGive (w.sortedDown x) p hp
-        have hsame := same_tryGive h.s1 hx p
+      · next hheld =>
+        rw [if_neg hheld] at hone hnbL
+        have hpm : p ∈ heldL (w.dev x) :=
+          (heldL_mem _ _).mpr (Or.inr (Or.inr (Or.inl ⟨t, by rw [hb]; exact List.mem_cons_self ..⟩)))
+        have hp : p < w.parts.length := h.valid.dev x p hpm
+        have hT := h.tryGive (w.sortedDown x) p hp (pfree_of_inv hI hpm)
+        have hsame := same_tryGive h.sc h.stk hx p
         rcases ht : World.tryList givePart w (w.sortedDown x) p with ⟨w1, b⟩
-        rw [ht] at hT hsame
-        dsimp only at hT hsame
+        rw [ht] at hT hsame hone hnbL
+        dsimp only at hT hsame hone hnbL
         obtain ⟨hbuf1, _, _, _, _, hkind1⟩ := core_fields hsame.dev
         cases b
         · -- refused
           dsimp only
           refine ⟨hmono hT, ?_⟩
-          obtain ⟨href, hno⟩ := tryGive_refused h.s1 ht
+          obtain ⟨href, hno⟩ := tryGive_refused h.sc (Or.inl hp) ht
           unfold LoopPost
           rw [hbuf1, hb]
           right
           intro y hy
           have hd : (w1.dev x).down = (w.dev x).down := (core_fields hsame.dev).2.2.2.2.1
           rw [hd] at hy
-          rw [fuel_of_len hsame.len, wouldAccept_refused href]
+          rw [fuel_of_len hsame.len]
           exact hno y hy
         · -- released
-          dsimp only
-          unfold C05.popHead
-          dsimp only
+          dsimp only at hone hnbL ⊢
+          have hI1 : InvB (C05.popHead w1 x (w.leafCount p)) :=
+            fun hnb' => hone (fun hn => hnb' (hnbL.mpr hn))
+          unfold C05.popHead at hI1 ⊢
+          dsimp only at hI1 ⊢
           have hx1 : x < w1.devs.length := by rw [hsame.len]; exact hx
-          have h2 : G (x :: E) (x :: N)
+          have h2 : G (x :: E) (x :: N) []
               (w1.modDev x (fun d => { d with level := d.level - w.leafCount p, buf := d.buf.drop 1 })) := by
             refine hT.modDev x _ rfl ?_ (fun _ h => h) (fun y hy => List.mem_cons_of_mem _ hy)
               (Or.inl (List.mem_cons_self ..)) (Or.inl (List.mem_cons_self ..))
             intro q hq
             refine hT.valid.dev x q ?_
             rw [heldL_mem] at hq ⊢
-            rcases hq with hq | hq | ⟨t', hq⟩
+            rcases hq with hq | hq | ⟨t', hq⟩ | hq
             · exact Or.inl hq
             · exact Or.inr (Or.inl hq)
-            · exact Or.inr (Or.inr ⟨t', List.mem_of_mem_drop hq⟩)
+            · exact Or.inr (Or.inr (Or.inl ⟨t', List.mem_of_mem_drop hq⟩))
+            · exact Or.inr (Or.inr (Or.inr hq))
           have h3 := h2.addRec (.level x
             (w1.modDev x (fun d => { d with level := d.level - w.leafCount p, buf := d.buf.drop 1 })).now
             ((w1.modDev x (fun d => { d with level := d.level - w.leafCount p, buf := d.buf.drop 1 })).dev x).level)
@@ -351,11 +658,11 @@ theorem G.bufferLoopG {E : List Nat} (x : Nat) (f : Nat) : ∀ (N : List Nat) (w
           have := ih (x :: N) _ h3 (by rw [hd3]; exact hkind1.trans hk)
             (by rw [hd3]; show ((w1.dev x).buf.drop 1).length < f
                 rw [hbuf1, hb]; simp only [List.drop_succ_cons, List.drop_zero]
-                rw [hb] at hl; simp only [List.length_cons] at hl; omega)
+                rw [hb] at hl; simp only [List.length_cons] at hl; omega) hI1
           exact ⟨this.1.mono (fun _ h => h) (fun y hy => by
             rcases List.mem_cons.mp hy with rfl | hy
             · exact List.mem_cons_self ..
-            · exact hy), this.2⟩
+            · exact hy) (fun _ h => h), this.2⟩
 
 theorem budget_cond (d : Dev) :
     (match d.maxParts.map (fun m => if m - d.produced < 0 then 0 else m - d.produced) with
@@ -372,10 +679,19 @@ theorem budget_cond (d : Dev) :
     · simp only [h, decide_false, Bool.not_false, decide_eq_true_eq]
       split <;> omega
 
-theorem G.passPartG {E N : List Nat} {w : World} {x : Nat} (h : G (x :: E) N w) :
-    G E N (w.passPart x) := by
-  have hun : ∀ {N' : List Nat} {w' : World}, G (x :: E) N' w' → (∀ q, holdsD (w'.dev x) ≠ some q) →
-      G E N' w' :=
+theorem tryMove_batcher_idle (w : World) (x : Nat) (hk : (w.dev x).kind = .batcher)
+    (hp : (w.dev x).part = none) : w.tryMove x = w := by
+  unfold World.tryMove
+  simp only [hk, hp, Option.isNone_none, Bool.or_true, Bool.true_or, if_true]
+
+/-- the batchers are settled: an output is waiting or the input is exhausted -/
+def Settled (w : World) : Prop :=
+  ∀ x, (w.dev x).kind = .batcher → (w.dev x).output = none → (w.dev x).part = none
+
+theorem G.passPartG {E N : List Nat} {w : World} {x : Nat} (h : G (x :: E) N [] w)
+    (hI : InvB w) (hset : Settled w) : G E N [] (w.passPart x) := by
+  have hun : ∀ {N' : List Nat} {w' : World}, G (x :: E) N' [] w' → (∀ q, holdsD (w'.dev x) ≠ some q) →
+      G E N' [] w' :=
     fun hw hq => hw.unexempt x (fun y hy => (List.mem_cons.mp hy).imp id id)
       (fun q hh => absurd hh (hq q))
   unfold World.passPart
@@ -403,7 +719,7 @@ theorem G.passPartG {E N : List Nat} {w : World} {x : Nat} (h : G (x :: E) N w) 
         refine hun h (fun q hq => ?_)
         rw [holdsD_output (by rw [hk]; decide) hq] at ho; cases ho
       · next p _ =>
-        have h1 := h.passHandler (by rw [hk]; decide)
+        have h1 := (h.passHandler (by rw [hk]; decide) hI).1
         have hk1 : ((w.passHandler x).dev x).kind = .source := by
           rw [kind_of_st (C02V.st_passHandler w x)]; exact hk
         generalize w.passHandler x = w1 at h1 hk1
@@ -412,7 +728,7 @@ theorem G.passPartG {E N : List Nat} {w : World} {x : Nat} (h : G (x :: E) N w) 
           apply G.scheduleFinish
           apply G.addRec
           refine h1.modDev x _ rfl (fun q hq => h1.valid.dev x q hq) (fun _ h => h) (fun _ h => h)
-            (Or.inr id) (Or.inr ?_)
+            (Or.inr (Or.inr (fun _ => id))) (Or.inr ?_)
           intro q hq
           exfalso
           unfold holdsD at hq
@@ -424,12 +740,12 @@ theorem G.passPartG {E N : List Nat} {w : World} {x : Nat} (h : G (x :: E) N w) 
   · -- buffer
     next hk =>
     have hx : x < w.devs.length := kind_lt (by rw [hk]; decide)
-    obtain ⟨h1, hpost⟩ := G.bufferLoopG x ((w.dev x).buf.length + 1) N w h hk (Nat.lt_succ_self _)
+    obtain ⟨h1, hpost⟩ := G.bufferLoopG x ((w.dev x).buf.length + 1) N w h hk (Nat.lt_succ_self _) hI
     have hk1 : ((World.bufferLoop ((w.dev x).buf.length + 1) w x).dev x).kind = .buffer := by
       rw [kind_of_st (C02V.st_bufferLoop _ w x)]; exact hk
     generalize World.bufferLoop ((w.dev x).buf.length + 1) w x = w1 at h1 hpost hk1
     have hx1 : x < w1.devs.length := kind_lt (by rw [hk1]; decide)
-    have hnot : ∀ {w2 : World}, G E (x :: N) w2 → G E N (w2.notify x) :=
+    have hnot : ∀ {w2 : World}, G E (x :: N) [] w2 → G E N [] (w2.notify x) :=
       fun hw => hw.notify x (fun y hy => (List.mem_cons.mp hy).imp id id)
     cases hb : (w1.dev x).buf with
     | nil =>
@@ -449,11 +765,11 @@ theorem G.passPartG {E N : List Nat} {w : World} {x : Nat} (h : G (x :: E) N w) 
         simp only [hk1, hb]
         split <;> omega
       · next hrem =>
-        have h2 : G (x :: E) (x :: N) (w1.setDev x { w1.dev x with waitingDS := true }) :=
+        have h2 : G (x :: E) (x :: N) [] (w1.setDev x { w1.dev x with waitingDS := true }) :=
           h1.setDev x _ rfl (fun q hq => h1.valid.dev x q hq) (fun _ h => h) (fun _ h => h)
-            (Or.inr id) (Or.inl (List.mem_cons_self ..))
+            (Or.inr (Or.inr (fun _ => id))) (Or.inl (List.mem_cons_self ..))
         rw [← hb]
-        suffices h3 : G E (x :: N) (w1.setDev x { w1.dev x with waitingDS := true }) from hnot h3
+        suffices h3 : G E (x :: N) [] (w1.setDev x { w1.dev x with waitingDS := true }) from hnot h3
         refine h2.unexempt x (fun y hy => (List.mem_cons.mp hy).imp id id)
           (fun q' hq' => Or.inr ?_)
         have hd2 : (w1.setDev x { w1.dev x with waitingDS := true }).dev x =
@@ -468,9 +784,8 @@ theorem G.passPartG {E N : List Nat} {w : World} {x : Nat} (h : G (x :: E) N w) 
         subst hqq
         refine ⟨by rw [hd2], fun y hy => ?_⟩
         rw [hd2] at hy
-        apply wouldAcceptN_le_wouldAccept
-        rw [fuel_of_len (core_eq_devs_length hc), ← wouldAcceptN_nil, wouldAcceptN_core hc,
-          wouldAcceptN_nil]
+        apply wouldAcceptN_of_nil
+        rw [fuel_of_len (core_eq_devs_length hc), wouldAcceptN_core hc]
         unfold LoopPost at hpost
         rw [hb] at hpost
         rcases hpost with hpost | hpost
@@ -478,8 +793,32 @@ theorem G.passPartG {E N : List Nat} {w : World} {x : Nat} (h : G (x :: E) N w) 
         · exact hpost y hy
   · -- batcher
     next hk =>
-    have := h.s1.kindOK x
-    rw [hk] at this; cases this
+    have hx : x < w.devs.length := kind_lt (by rw [hk]; decide)
+    obtain ⟨h1, h1A⟩ := h.passHandler (by rw [hk]; decide) hI
+    have hnb : ¬ NoBatch w := fun hn => (noBatch_dev hn x).1 hk
+    have hI1 : C02V.InvW (w.passHandler x) :=
+      C02V.inv_passHandler w x (hI hnb) (by rw [hk]; decide) (h.sc.giveOK x)
+    have hk1 : ((w.passHandler x).dev x).kind = .batcher := by
+      rw [kind_of_st (C02V.st_passHandler w x)]; exact hk
+    split
+    · next ho1 =>
+      have ho1' : ((w.passHandler x).dev x).output = none := by simpa using ho1
+      by_cases ho : (w.dev x).output = none
+      · -- nothing to hand over: the input is exhausted, nothing happens
+        have hpn := hset x hk ho
+        have hsame : w.passHandler x = w := by
+          unfold World.passHandler
+          simp only [ho]
+          split <;> rfl
+        rw [hsame] at h1 ⊢
+        rw [tryMove_batcher_idle w x hk hpn]
+        exact h1
+      · have h2 := h1A hk ho ho1'
+        refine (h2.tryMove x (fun _ => ⟨List.mem_singleton.mpr rfl, fun d q hd hq => ?_⟩)).dropA
+          (fun _ hy => by cases hy)
+        have := inv_free hI1 hq x
+        exact ⟨this.2, this.1⟩
+    · exact h1
   · -- sink
     next hk =>
     refine hun h (fun q hq => ?_)
@@ -487,6 +826,6 @@ theorem G.passPartG {E N : List Nat} {w : World} {x : Nat} (h : G (x :: E) N w) 
     simp only [hk] at hq
     cases hq
   · next h1 h2 h3 h4 =>
-    exact h.passHandler (fun hb => h2 hb)
+    exact (h.passHandler (fun hb => h2 hb) hI).1
 end C03W
 end SimProc
